@@ -117,7 +117,9 @@ theorem gqr_unconstrained_eq_qr (B : RMat) (cfg : GqrCfg) (h : cfg.opt = .uncons
     gqrModel cfg.mask B = qrModel B := by
   have : cfg.mask = noMask := by
     funext j p
-    simp [GqrCfg.mask, h, noMask]
+    have hm : cfg.masked j = fun _ => false := by
+      funext c; simp [GqrCfg.masked, h]
+    simp only [GqrCfg.mask, pmask, noMask, hm]
   rw [this]
   rfl
 
